@@ -7,6 +7,8 @@
   IMPORT-FREE.
 -/
 import MocVerif.Model.Ranges
+import MocVerif.Model.Cells
+import MocVerif.Model.Params
 
 namespace Moc.UniqIter
 open Moc
@@ -33,5 +35,11 @@ def uniqValues (J : Nat) (es : List (Nat × Rng)) : List Nat :=
     let k := 2 * e.1
     let d := J - e.1
     (List.range ((e.2.2 >>> k) - (e.2.1 >>> k))).map fun i => (4 <<< (2 * d)) + (e.2.1 >>> k) + i
+
+/-- `UniqToHpxIter`: every NUNIQ number of every NUNIQ range, one after the other, becomes the range of its cell
+    at the deepest level of the index type. -/
+def uniqToHpx (w : Nat) : List Rng → List Rng
+  | [] => []
+  | r :: t => ((List.range (r.2 - r.1)).map fun i => rangeOfCell Params.hpx w (fromUniqHpx (r.1 + i))) ++ uniqToHpx w t
 
 end Moc.UniqIter
